@@ -339,7 +339,9 @@ func (t Token) Float32() (float32, bool) {
 			return float32(f), true
 		}
 	case numberValue:
-		n, err := strconv.ParseFloat(t.str, 64)
+		// Parse with the precision of the result: parsing as a float64 and
+		// converting would round twice.
+		n, err := strconv.ParseFloat(t.str, 32)
 		if err == nil {
 			// Overflows are treated as (-)infinity.
 			return float32(n), true
